@@ -2,6 +2,7 @@ package simrt
 
 import (
 	"container/heap"
+	"sort"
 	"time"
 )
 
@@ -38,6 +39,28 @@ func (s *Sim) At(d time.Duration, fn func()) *event {
 	ev := &event{at: s.now + int64(d), seq: s.seq, fn: fn}
 	heap.Push(&s.timers, ev)
 	return ev
+}
+
+// PendingTimes returns the distinct due times (ns of simulated time, ascending) of the live
+// timer events that lie in the future. A harness uses it to make something happen at the very
+// instant a timer of the code under test fires, without knowing the timer's duration.
+func (s *Sim) PendingTimes() []int64 {
+	var out []int64
+	for _, ev := range s.timers {
+		if ev.dead || ev.at <= s.now {
+			continue
+		}
+		out = append(out, ev.at)
+	}
+	sort.Slice(out, func(i, j int) bool { return out[i] < out[j] })
+	k := 0
+	for i, v := range out {
+		if i == 0 || v != out[i-1] {
+			out[k] = v
+			k++
+		}
+	}
+	return out[:k]
 }
 
 func (s *Sim) fireDue() {
